@@ -10,7 +10,7 @@ TECH = "bounded symbolic execution of the real Go code (go/ssa lowered from /rep
 CHECKS = {
  "C10": ("every expression of the reference grammar up to the token bound (and every token sequence at a smaller bound) is parsed by the real parser; acceptance and the truth table of the parsed rewrite are compared with a TypeScript reference by solver query; spelling variants through the real lexer",
          "token choice and spelling variants are explored by forking (viable prefixes), not by the solver; expressions longer than the bound and nesting beyond 11 are outside; reference grammar/evaluator (60 lines) trusted", "4 C10"),
- "C12": ("the real lexer, parser and error rendering are executed on fully symbolic byte strings (all 256 values per byte) and on arbitrary token sequences up to the bound: no panic, bounded steps, positions sane, REST == gRPC positions",
+ "C12": ("the real lexer, parser and error rendering are executed on fully symbolic byte strings (all 256 values per byte) and on arbitrary token sequences up to the bound: no panic, bounded steps, positions sane; the REST and gRPC syntax endpoints report the parser's errors for the submitted bytes; every lexeme repeated 19..64 times (runs longer than the lexer's item buffer, pathological nesting)",
          "inputs longer than the bound are outside; 'linear time' is only asserted as a step bound within the bound; fmt/strings.Builder modelled", "4 C12"),
  "C18": ("string form: decode(encode(x)) == x for every field content within the length bound and decode stability for every byte string within the bound (bytes symbolic); proto and URL legs with opaque symbolic strings of any length",
          "JSON leg not covered (reflection); field lengths enumerated by forking; url.Values treated as a map (no percent-encoding)", "4 C18"),
@@ -22,8 +22,8 @@ CHECKS.update({
          ENGINE_NOTE, "4 C01"),
  "C02": ("request-depth clamp: Check(r) under global G equals Check(0) under eff(r,G) for a fully symbolic 64-bit r; fail-closed: whatever is allowed under depth/width limits is allowed by the unbounded semantics formula",
          ENGINE_NOTE, "4 C02"),
- "C03": ("the k-th storage call of the check fails (k symbolic over every call position, transient or persistent): the answer is an error or the fault-free answer, never allowed-for-denied, never allowed-with-error; hangs are detected as deadlocks of the modelled scheduler",
-         ENGINE_NOTE + "; faults are injected at the MemStore boundary, so counterexamples cannot be replayed against the real persister", "4 C03"),
+ "C03": ("the k-th storage call of the check fails (k symbolic over every call position, transient or persistent): the answer is an error or the fault-free answer, never allowed-for-denied, never allowed-with-error; hangs are detected as deadlocks of the modelled scheduler; Lemma PF: a failing database operation inside a read call of the real SQL layer (database model) surfaces as an error",
+         ENGINE_NOTE + "; faults are injected at the MemStore boundary (engine runs) and at the pop boundary of the database model (Lemma PF), so counterexamples cannot be replayed against the real persister", "4 C03"),
 })
 
 CHECKS.update({
@@ -39,16 +39,16 @@ CHECKS.update({
 
 HANDLER_NOTE = "handlers run with recording storage stubs, a capturing herodot writer, JSON decoding replaced by 'arbitrary value of the static type or an error', config getters overridden; HTTP routing/middleware and wire formats are outside"
 CHECKS.update({
- "C08": ("the real REST and gRPC check handlers and the real Engine.BatchCheck are executed with the engine core replaced by an uninterpreted function (fresh symbolic membership/error per distinct mapped tuple and depth): every transport's decision equals the engine's, status mirroring is 200<=>allowed / 403<=>denied, unknown namespaces are never allowed, batch results are per-slot and in order",
+ "C08": ("the real REST and gRPC check handlers and the real Engine.BatchCheck are executed with the engine core replaced by an uninterpreted function (fresh symbolic membership/error per distinct mapped tuple and depth): every transport's decision equals the engine's, status mirroring is 200<=>allowed / 403<=>denied, unknown namespaces (of the relationship or of its subject set, decided by the harness's own namespace list) are never allowed, batch results are per-slot and in order, also for names that contain the separator characters of the textual rendering",
          HANDLER_NOTE + "; counterexamples cannot be replayed natively because the engine core is uninterpreted here", "4 C08"),
- "C13": ("every exported gRPC handler of the check/read/write/expand services and the bodies of the REST handlers are executed on arbitrary inhabitants of their request types (nil-ness of every optional pointer, null array elements, fully symbolic numbers, opaque strings): no panic in any goroutine, malformed requests are not 5xx/Internal, rejected writes do not write",
+ "C13": ("every exported gRPC handler of the check/read/write/expand services and the bodies of the REST handlers are executed on arbitrary inhabitants of their request types (nil-ness of every optional pointer, null array elements, fully symbolic numbers, opaque strings): no panic in any goroutine, malformed requests are not 5xx/Internal, rejected writes do not write; the real GetRelationTuples on the database model does not panic for any non-negative page size",
          HANDLER_NOTE, "4 C13"),
- "C17": ("the read handlers (check, batch check, list, expand) on arbitrary requests never call a writing method of relationtuple.Manager / MappingManager nor obtain the writing Mapper; RegistryDefault hands out a read-only ReadOnlyMapper",
+ "C17": ("the read handlers (check, batch check, list, expand) on arbitrary requests never call a writing method of relationtuple.Manager / MappingManager nor obtain the writing Mapper; RegistryDefault hands out a read-only ReadOnlyMapper; the real ReadGRPCServer / WriteGRPCServer / OplGRPCServer register exactly their own services (grpc.NewServer and the generated Register functions replaced by recording stubs)",
          HANDLER_NOTE + "; decided at the Manager/MappingManager interface, the SQL below it is not part of this check", "4 C17"),
 })
 
 CHECKS.update({
- "C14": ("two checks issued concurrently against one real engine and one symbolic store under every schedule within delay bound 1 of the deterministic scheduler return what they return alone; every load/store/map access of the interpreted program is checked against a vector-clock happens-before relation (data race = unordered conflicting accesses); the lazily initialised registry getters are run from two goroutines",
+ "C14": ("two checks issued concurrently against one real engine and one symbolic store under every schedule within delay bound 1 of the deterministic scheduler return what they return alone; every load/store/map access of the interpreted program is checked against a vector-clock happens-before relation (data race = unordered conflicting accesses); the lazily initialised registry getters and Config.NamespaceManager (with a concurrent reload) are run from several goroutines; the entries of a real BatchCheck get the answers the same checks get alone",
          ENGINE_NOTE + "; the race analysis is the executor's own (models of go/channels/sync/atomics/context), not the Go race detector", "4 C14"),
  "C19": ("the real OPL watcher and legacy namespace watcher structs are driven by every event sequence of bounded length (2 files x {valid v1, valid v2, syntax error, type error, remove}); after every event the namespaces visible through Namespaces() must be, per file, those of one valid version loaded so far, never nothing, and the last valid version at the end; documents go through the real schema.Parse",
          "events are delivered by direct calls (no fsnotify, no timing); sequences enumerated by forking, the solver is idle here; legacy parser stubbed in symbolic runs", "4 C19"),
@@ -60,7 +60,7 @@ CHECKS.update({
          SQL_NOTE, "4 C04"),
  "C05": ("every terminal database operation of a transact/create/delete request (1st..3rd) may fail and one relationship may lack its subject at any position: on error the table equals the pre-state slot by slot, no statement bypasses the open transaction; chunk-spanning requests (3001 inserts, 101 deletes) with the first or second statement failing",
          SQL_NOTE + "; isolation from concurrent readers is reduced to 'all statements go through the open transaction'", "4 C05"),
- "C06": ("tables hold rows of two networks with symbolic network ids: every write under network A leaves the rows of network B unchanged (formula per slot), listings never return them, and the real subject-set-expansion and rewrite traversals (raw SQL with EXISTS sub-select) return exactly what a specification computes from network A's rows",
+ "C06": ("tables hold rows of two networks with symbolic network ids: every write under network A leaves the rows of network B unchanged (formula per slot), listings never return them, and the real subject-set-expansion and rewrite traversals (raw SQL with EXISTS sub-select) return exactly what a specification computes from network A's rows; the same with the caller's network supplied by a contextualizer from the request context while the persister was created for network B",
          SQL_NOTE, "4 C06"),
  "C07": ("arbitrary table, symbolic query and symbolic page size 0..K+1: following next_page_token through the real keyset pagination with one interleaved insert or delete returns every relationship that existed for the whole iteration at least once and nothing more often than stored, pages never exceed the size, tokens end, malformed tokens are rejected",
          SQL_NOTE, "4 C07"),
